@@ -63,6 +63,13 @@ func errnoOfClient(err error) int {
 
 // isoBody runs the workload in this process and returns the first violation.
 func isoBody(c isoCase) *fail {
+	f, _ := isoBodyFS(c)
+	return f
+}
+
+// isoBodyFS also returns the backend, for checks that look at what happened to
+// its Files (C05 runs the same workloads with lifecycle assertions).
+func isoBodyFS(c isoCase) (*fail, *memfs.FS) {
 	fs := memfs.New(memfs.Options{NativeWalkGetAttr: c.Native})
 	for w := 0; w < c.Workers; w++ {
 		fs.Tree.Mkdir(fs.Tree.Root, fmt.Sprintf("g%d", w), 0o755, 0, 0)
@@ -95,7 +102,7 @@ func isoBody(c isoCase) *fail {
 	for i := 0; i < c.Conns; i++ {
 		cl, closeFn, err := dialPipe(srv)
 		if err != nil {
-			return failf("harness-dial", "HARNESS-ERROR %v", err)
+			return failf("harness-dial", "HARNESS-ERROR %v", err), fs
 		}
 		clients = append(clients, cl)
 		closers = append(closers, closeFn)
@@ -168,7 +175,7 @@ func isoBody(c isoCase) *fail {
 					}
 				}
 				fmt.Printf("STUCK-STACKS\n%s\nEND-STUCK-STACKS\n", strings.Join(stuck, "\n"))
-				return failf("workload-stuck", "concurrent workload made no progress for %v (total %v): a request was never answered; calls inside the backend: %v; case %+v", time.Since(lastChange).Round(time.Second), time.Since(start).Round(time.Second), fs.Inside(), c)
+				return failf("workload-stuck", "concurrent workload made no progress for %v (total %v): a request was never answered; calls inside the backend: %v; case %+v", time.Since(lastChange).Round(time.Second), time.Since(start).Round(time.Second), fs.Inside(), c), fs
 			}
 		}
 	}
@@ -176,7 +183,7 @@ func isoBody(c isoCase) *fail {
 	for _, f := range closers {
 		f()
 	}
-	return first
+	return first, fs
 }
 
 // isoWorker performs a deterministic sequence of operations confined to /g<w>
